@@ -29,3 +29,5 @@ def run(ck):
     routes.numpy_dispatch_transparent(ck, "C15.R5")  # np.floor_divide / np.mod / np.divide hand their operands over unconverted
     carriers.machine_carrier(ck, "C18.R5")            # kernels pre-scale x.val * 2^k in the operand's carrier: it must be the 64-bit one
     funcs.template_sizes(ck, "C08.R3")
+    fresh.constructor_state(ck, "C20.R2")            # results and operands are built by the constructor: own status record, own final configuration
+    funcs.route_selection(ck, "C07.R8")
